@@ -52,9 +52,13 @@ class ZConfigParser:
         try:
             line = self.file.readline()
         except UnicodeDecodeError as e:
-            # a text-mode file whose bytes cannot be decoded: the line
-            # that cannot be read is the one after the last good one
+            # a text-mode file whose bytes cannot be decoded.  The stream
+            # decodes a block of bytes at a time: the lines of the block
+            # that end before the offending byte are good, and the line
+            # that cannot be read comes after them
             self.lineno += 1
+            if isinstance(e.object, bytes):
+                self.lineno += e.object.count(b"\n", 0, e.start)
             self.error("cannot decode the text of the resource: %s" % e)
         if line:
             self.lineno += 1
